@@ -13,6 +13,7 @@ pub fn cfg(_tier: &str) -> FaultCfg {
         cont_depth: 1,
         double_fault: false,
         check_secret: false,
+        thin_over: 0,
     }
 }
 
